@@ -24,6 +24,7 @@ import Selene.Scope.Lints
 import Selene.Scope.Spec
 import Selene.Scope.CoreProof
 import Selene.Scope.SpecProof
+import Selene.Scope.TopProof
 namespace Selene.Props.C01
 open Selene.Scope Selene.Lua
 
@@ -44,12 +45,13 @@ theorem C01_resolution [Core.NameFilter] (b : Block) :
 /-- the same, pointwise: an answer of the machine is an occurrence of the specification and vice versa -/
 theorem C01_resolution_mem [Core.NameFilter] (b : Block) (t : Nat) (d : Option Nat) :
     (t, d) ∈ (Core.analyse b).answers ↔
-      ∃ oc ∈ (Spec.resolve b).occs, SpecProof.counted oc = true ∧ oc.tok = t ∧ oc.binding.map (·.1) = d := by
+      ∃ oc ∈ (Spec.resolve b).occs, SpecProof.counted oc = true ∧ Core.NameFilter.read oc.name = true ∧
+        oc.tok = t ∧ oc.binding.map (·.1) = d := by
   rw [(C01_resolution b).mem_iff]
-  simp only [SpecProof.reads, List.mem_map, List.mem_filter, Prod.mk.injEq]
+  simp only [SpecProof.reads, List.mem_map, List.mem_filter, Prod.mk.injEq, Bool.and_eq_true]
   constructor
-  · rintro ⟨oc, ⟨h1, h2⟩, h3, h4⟩; exact ⟨oc, h1, h2, h3, h4⟩
-  · rintro ⟨oc, h1, h2, h3, h4⟩; exact ⟨oc, ⟨h1, h2⟩, h3, h4⟩
+  · rintro ⟨oc, ⟨h1, h2, h2'⟩, h3, h4⟩; exact ⟨oc, h1, h2, h2', h3, h4⟩
+  · rintro ⟨oc, h1, h2, h2', h3, h4⟩; exact ⟨oc, ⟨h1, h2, h2'⟩, h3, h4⟩
 
 /-- `local x = 1; local function f(...) local x = x; g = x; return ..., g, y end` — shadowing, the
     initialiser seeing the outer `x`, a hoisted global, a vararg, an unbound name -/
@@ -66,9 +68,116 @@ def witness : Block :=
         .nil))
     .none
 
-example : (@Core.analyse ⟨fun _ => true⟩ witness).answers = [(13, some 1), (16, some 11), (18, some 8), (20, none), (22, none)] := by decide
+example : @Core.St.answers Core.NameFilter.all (Core.analyse witness) = [(13, some 1), (16, some 11), (18, some 8), (20, none), (22, none)] := by decide
 /-- … and its declarations: `f` (6) and the inner `x` (11) which re-uses the name of the outer `x` (1) -/
-example : (@Core.analyse ⟨fun _ => true⟩ witness).shadows = [(1, none), (6, none), (11, some 1)] := by decide
+example : @Core.St.shadows Core.NameFilter.all (Core.analyse witness) = [(1, none), (6, none), (11, some 1)] := by decide
+
+/-! ### the two directions of the property, for the lint over the machine's log -/
+
+export Selene.Scope.Core (undefinedReports)
+
+/-- the filter that looks at one name only -/
+@[reducible] def oneName (n : String) : Core.NameFilter :=
+  { keep := fun _ => false, read := fun m => m == n, assign := fun m => m == n }
+
+theorem oneName_read (n m : String) : @Core.NameFilter.read (oneName n) m = (m == n) := rfl
+theorem oneName_assign (n m : String) : @Core.NameFilter.assign (oneName n) m = (m == n) := rfl
+
+theorem kept_read (n : String) (r : Core.Ref) (hd : r.decl = false) (hw : r.write = false) :
+    @Core.Ref.kept (oneName n) r = (r.name == n) := by
+  unfold Core.Ref.kept; simp [hd, hw, oneName_read]
+
+theorem kept_write (n : String) (r : Core.Ref) (hd : r.decl = false) (hw : r.write = true) :
+    @Core.Ref.kept (oneName n) r = (r.name == n) := by
+  unfold Core.Ref.kept; simp [hd, hw, oneName_assign]
+
+/-- **C01 (never reported when bound, supplied or assigned).** For every chunk and every library: a
+reported token is an identifier occurrence in an expression position that Lua's scoping rules bind to no
+local, parameter, loop variable or implicit `self`; its name is not supplied by the standard library; it
+is not `...` of the main chunk; and it is not a global the file assigns (or defines with `function
+name`) in its outermost block. -/
+theorem C01_sound (hasFields : String → Bool) (b : Block) (t : Nat)
+    (h : t ∈ undefinedReports hasFields (Core.analyse b)) :
+    ∃ oc ∈ (Spec.resolve b).occs, oc.tok = t ∧ oc.kind ≠ .target ∧ oc.binding = none ∧
+      hasFields oc.name = false ∧ ¬ (oc.name = "..." ∧ oc.inFunction = false) ∧
+      oc.name ∉ TopProof.topGlobals b := by
+  simp only [undefinedReports, List.mem_map, List.mem_filter, Bool.and_eq_true, Bool.not_eq_true',
+    Option.isNone_iff_eq_none] at h
+  obtain ⟨r, ⟨hr, ⟨⟨hd, hw⟩, hres⟩, hs⟩, ht⟩ := h
+  have i := @TopProof.analyse_inv Core.NameFilter.all b
+  have hexpr : r.expr = true := by
+    cases he : r.expr with
+    | true => rfl
+    | false => exact absurd hres (i.uok r hr hd hw he)
+  have hcount : r.counted = true := by rw [(i.shape r hr).1 hd hw]; exact hexpr
+  have hkept : @Core.Ref.kept (oneName r.name) r = true := by rw [kept_read _ _ hd hw]; simp
+  have hmem : (t, none) ∈ @Core.St.answers (oneName r.name) (Core.analyse b) :=
+    (@CoreProof.mem_answers (oneName r.name) _ t none).mpr
+      ⟨r, hr, hcount, hkept, hd, hw, ht, by simp [Core.localBinding, hres]⟩
+  obtain ⟨oc, hoc, hc, hname, htok, hbind⟩ := (@C01_resolution_mem (oneName r.name) b t none).mp hmem
+  have hname' : oc.name = r.name := by simpa [oneName_read] using hname
+  have hc' : (oc.kind != .target) = true ∧ (!(oc.name == "..." && !oc.inFunction)) = true := by
+    simpa [SpecProof.counted] using hc
+  refine ⟨oc, hoc, htok, by simpa using hc'.1, by simpa using hbind, by rw [hname']; exact hs, ?_, ?_⟩
+  · rintro ⟨h1, h2⟩
+    have := hc'.2
+    simp [h1, h2] at this
+  · intro htop
+    rw [hname'] at htop
+    exact (@TopProof.analyse_good Core.NameFilter.all b r.name htop).2 r hr rfl hd hw hres
+
+/-- **C01 (always reported otherwise).** For every chunk and every library: an identifier occurrence in
+an expression position that Lua's scoping rules bind to nothing, whose name the standard library does
+not supply and that no statement of the file assigns as a global (no plain-name target or `function
+name` with that name where it denotes no local), is reported at that token. -/
+theorem C01_complete (hasFields : String → Bool) (b : Block) (oc : Spec.Occ)
+    (hoc : oc ∈ (Spec.resolve b).occs) (hc : SpecProof.counted oc = true) (hb : oc.binding = none)
+    (hs : hasFields oc.name = false)
+    (hna : ∀ oc' ∈ (Spec.resolve b).occs, SpecProof.assignsGlobal oc' = true → oc'.name ≠ oc.name) :
+    oc.tok ∈ undefinedReports hasFields (Core.analyse b) := by
+  have i := @TopProof.analyse_inv Core.NameFilter.all b
+  -- the machine recorded no global assignment of this name …
+  have hnone : ∀ t, t ∉ @Core.St.globalAssigns (oneName oc.name) (Core.analyse b) := by
+    intro t ht
+    have hp : (@Core.St.globalAssigns (oneName oc.name) (Core.analyse b)).Perm
+        (@SpecProof.globalAssigns (oneName oc.name) (Spec.resolve b)) := by
+      rw [← @CoreProof.log_globalAssigns (oneName oc.name), ← @SpecProof.log_globalAssigns (oneName oc.name)]
+      exact (@C01_log (oneName oc.name) b).filterMap _
+    obtain ⟨x, hx, ha, hk, _⟩ := (@SpecProof.mem_globalAssigns (oneName oc.name) _ t).mp (hp.mem_iff.mp ht)
+    exact hna x hx ha (by simpa [oneName_assign] using hk)
+  -- … so every plain-name write of it met a local, and it was never hoisted
+  have hlw : Safe.LocalWrites oc.name (Core.analyse b).refs := by
+    intro w hw hww hwn
+    cases hl : (Core.localOf w.resolved) with
+    | some _ => rfl
+    | none =>
+      exfalso
+      obtain ⟨hwd, hwc⟩ := (i.shape w hw).2 hww
+      refine hnone w.tok ((@CoreProof.mem_globalAssigns (oneName oc.name) _ w.tok).mpr ⟨w, hw, ?_, ?_, hwd, hww, rfl⟩)
+      · rw [hwc, hl]; rfl
+      · rw [kept_write _ _ hwd hww]; simp [hwn]
+  obtain ⟨_, hnh⟩ := i.noh oc.name hlw
+  -- the occurrence is among the machine's answers
+  have hmem : (oc.tok, none) ∈ @Core.St.answers (oneName oc.name) (Core.analyse b) :=
+    (@C01_resolution_mem (oneName oc.name) b oc.tok none).mpr ⟨oc, hoc, hc, by simp [oneName_read], rfl, by simp [hb]⟩
+  obtain ⟨r, hr, _, hk, hd, hw, htok, hlb⟩ := (@CoreProof.mem_answers (oneName oc.name) _ oc.tok none).mp hmem
+  have hname : r.name = oc.name := by
+    rw [kept_read _ _ hd hw] at hk; simpa using hk
+  have hres : r.resolved = none := by
+    cases hr' : r.resolved with
+    | none => rfl
+    | some v =>
+      obtain ⟨d, g⟩ := v
+      cases g with
+      | true => exact absurd hr' (hnh r hr hname d)
+      | false => simp [Core.localBinding, hr'] at hlb
+  simp only [undefinedReports, List.mem_map, List.mem_filter, Bool.and_eq_true, Bool.not_eq_true',
+    Option.isNone_iff_eq_none]
+  exact ⟨r, ⟨hr, ⟨⟨hd, hw⟩, hres⟩, by rw [hname]; exact hs⟩, htok⟩
+
+/-- non-vacuity, on `witness`: the reads of `y` (token 22, never assigned) is reported; the read of `g`
+    (token 20) is not — `g` is assigned inside the function, so the machine hoists it; -/
+example : undefinedReports (fun _ => false) (Core.analyse witness) = [22] := by decide
 
 /-- the fold step of `undefined_variable` -/
 def step (hasFields : String → Bool) (acc : List Nat × List Diag) (r : Ref) : List Nat × List Diag :=
